@@ -218,6 +218,24 @@ def run_case(case):
                 pass       # grazing the surface: either answer
             else:
                 v.close("Fresnel coefficients == textbook reflection at the surface (1 when the ray does not reach it)", float(max(abs(fr[0] - tb[0]), abs(fr[1] - tb[1]))), 1e-6, textbook=list(tb), **det_f)
+        if fam == "uniform":
+            # straight path with bounces off the ice boundaries: textbook product of the reflection coefficients, from the geometry alone
+            pts_ = [np.asarray(q, float) for q in p._points]
+            n1_ = float(ice.index(float(0.5 * (pts_[0][2] + pts_[-1][2]))))
+            ts, tp = 1.0, 1.0
+            for q1, q2 in zip(pts_[:-2], pts_[1:-1]):
+                seg = q2 - q1
+                sin1 = float(np.hypot(seg[0], seg[1]) / np.linalg.norm(seg))
+                n2_ = ice.index_above if seg[2] > 0 else ice.index_below
+                if n2_ is None:
+                    ts = None
+                    break
+                r1, r2 = textbook_fresnel(n1_, float(n2_), sin1)
+                ts *= r1
+                tp *= r2
+            if ts is not None:
+                v.close("uniform-ice Fresnel factor == product of the textbook reflection coefficients at its bounces", float(max(abs(fr[0] - ts), abs(fr[1] - tp))), 1e-6,
+                        textbook=[ts, tp], bounces=len(pts_) - 2, **det_f)
         if hasattr(p, "paths") and all(hasattr(sp, "_points") and len(sp._points) == 2 for sp in p.paths):
             # layered path made of straight legs: textbook product of the junction coefficients from the leg geometry alone
             # (keeps the known finding "transmission amplitude > 1" bounded: the magnitude must still be the textbook one)
